@@ -313,9 +313,20 @@ func runSchedule(c *core.Ctx, caseIdx int64, r *core.Rand, sp schedParams) {
 		s.s0, s.s1 = rr.Intn(ns), rr.Intn(ns)
 		return s
 	}
+	// hot tuples: executed again and again by every goroutine. The first len(ops)
+	// of them are one per catalogue operation, so that every operation runs on
+	// shared operands in every run.
 	hot := make([]sop, nHot)
 	for i := range hot {
 		hot[i] = newTuple(r)
+		if i < len(ops) && hot[i].op != i {
+			for try := 0; try < 50 && hot[i].op != i; try++ {
+				t := newTuple(r)
+				t.op = i
+				t.i0, t.i1 = B.p.pickIdx(r, &ops[i])
+				hot[i] = t
+			}
+		}
 	}
 	progs := make([][]sop, sp.G)
 	for g := range progs {
